@@ -110,7 +110,8 @@ PROPS = {
     },
     "C05": {
         "lean_modules": ["Props.Facts04"],
-        "groups": [{"name": "C05", "quick": 160, "thorough": 6000, "workers": 16, "config": "[network]\ntimeout_seconds = 1\n"}],
+        "groups": [{"name": "C05", "quick": 160, "thorough": 6000, "workers": 16, "config": "[network]\ntimeout_seconds = 1\n"},
+                   {"name": "C05x", "quick": 0, "thorough": 400, "workers": 1, "config": "[network]\ntimeout_seconds = 1\n"}],
         "replay_config": "[network]\ntimeout_seconds = 1\n",
         "level": "fault_enumeration",
         "rule": "a document behind 0..2 redirect hops over the TLS simulator, one hop carrying a fault: response cut at a random byte or at a structural boundary (status line, CRLF, blank line, last byte) followed by EOF, TCP reset or silence; total silence after the handshake; 25 ms/byte trickle; TCP accept without TLS handshake; timeout 1 s; "
@@ -139,7 +140,8 @@ PROPS = {
     },
     "C13": {
         "lean_modules": ["Props.C13s"],
-        "groups": [{"name": "C13", "quick": 6000, "thorough": 200000}],
+        "groups": [{"name": "C13", "quick": 6000, "thorough": 200000},
+                   {"name": "C13x", "quick": 0, "thorough": 6, "workers": 1}, {"name": "unicodeall", "quick": 0, "thorough": 1, "workers": 1}],
         "rule": "styled text from a cell grammar (words, runs of all IsSpace kinds, newlines, nested SGR attributes; 1 in 5 a hostile ESC/[/m string) x widths -3..250; "
                 "non-trivial = some input line is longer than the width (wrap/dumbwrap/pad actually act) / more lines than the height (snip) / a styled cell is present (expand); distinct by op content",
         "trusted": [LIBS["regexp"], LIBS["unicode"]],
@@ -195,7 +197,8 @@ PROPS = {
     },
     "C16": {
         "lean_modules": ["Props.C16b"],
-        "groups": [{"name": "C16", "quick": 6000, "thorough": 200000}, {"name": "C07", "quick": 160, "thorough": 4000, "workers": 16}],
+        "groups": [{"name": "C16", "quick": 6000, "thorough": 200000}, {"name": "C07", "quick": 160, "thorough": 4000, "workers": 16},
+                   {"name": "C16x", "quick": 0, "thorough": 7, "workers": 1}],
         "rule": "prefix/centered/suffix of 0..8 styled lines each x heights 1..16; non-trivial = height exceeds the centred text (buffers are computed); distinct by op content",
         "trusted": [LIBS["regexp"]],
         "assumptions": ["frames are produced only by ui.State.view (generated fact)", "terminal height >= 2 for the status line clause"],
